@@ -564,6 +564,7 @@ func (e *Exec) runPath(j *job) (pr *PathResult) {
 		}
 	}()
 	e.callFunc(&FuncV{Fn: e.W.Harness}, nil, "harness")
+	e.runPendingGo()
 	if e.threads != nil {
 		e.finishThreads()
 	}
@@ -626,6 +627,7 @@ func (e *Exec) resetPath(j *job) {
 	e.jsonBlobs = nil
 	e.opaqueBytes = nil
 	e.timeFmtDigits = false
+	e.pendingGo = nil
 }
 
 // ---------- obligations ----------
